@@ -21,26 +21,13 @@ import (
 // function + ":" + construct text. A construct that is neither discharged by
 // a rule nor listed here is reported.
 var panicTable = map[string]string{
-	"explicitConstraintType:typeParam.Type().Underlying().(*types.Interface)": "go/types invariant: the type of a type parameter's constraint always has an interface as underlying type (moq passes tp.Constraint() as the variable's type)",
-	"explicitConstraintType:t.Term(0)":                                        "go/types invariant: a union has at least one term",
-	"Mocker.methodData:f.Type().(*types.Signature)":                           "go/types invariant: (*types.Func).Type() is always a *types.Signature",
-	"parseInterfaceName:parts[0]":                                             "strings.SplitN(s, sep, 2) with a non-empty separator returns at least one element",
-	"Registry.LookupInterface:obj.Type().Underlying().(*types.Interface)":     "dominated by types.IsInterface(obj.Type()), which is defined as exactly this assertion succeeding",
-	"Registry.Imports$1:imports[i]":                                           "indices handed to the less function by sort.Slice are in range",
-	"Registry.Imports$1:imports[j]":                                           "indices handed to the less function by sort.Slice are in range",
-	"Package.uniqueName:pp[i]":                                                "i < min(len(pp), lvl+1) and moq's min returns a value <= its first argument",
-	"stripVendorPath:parts[1:]":                                               "strings.Split returns at least one element, so after the len(parts) == 1 return the length is >= 2",
-	"reverse:a[i]":                                                            "0 <= i <= len(a)/2-1",
-	"reverse:a[opp]":                                                          "opp = len(a)-1-i with 0 <= i <= len(a)/2-1",
 	"reverse:len(a) / 2":                                                      "constant non-zero divisor",
 	"capitalise:s[:1]":                                                        "every caller passes a go/types name or a non-empty constant/concatenation (nestedType results, which are non-empty for every type constructor)",
 	"capitalise:s[1:]":                                                        "as above",
 	"deCapitalise:s[:1]":                                                      "every caller passes a go/types type or object name, which is never empty",
 	"deCapitalise:s[1:]":                                                      "as above",
-	"ParamData.MethodArg:p.TypeString()[2:]":                                  "Variadic is only set when the signature is variadic, the parameter is the last one and its type is a slice: go/types prints an unnamed slice as \"[]\" + element",
 	"MethodScope.resolveVarNameConflict:for-without-condition":                "candidates suggested+n are pairwise distinct and the scope holds finitely many variables and imports: some n is free after at most len(vars)+len(imports)+1 iterations",
 	"Registry.resolveImportConflict:for-without-condition":                    "names name+n are pairwise distinct and finitely many imports are registered, so some n is free",
-	"varNameForType:recursive call varNameForType(t)":                         "inside the nestedType closure, whose only call sites pass t.Elem() / t.Key() of the value being switched on (structural)",
 	"Registry.resolveImportConflict:recursive call Registry.resolveImportConflict(p, conflict, lvl + 1)": "the third-party holder of a wanted name is never a member of the pair (checked in the condition); beyond the deepest path level the wanted name is constant and has one holder, so a frame there either assigns or meets the equal-names branch, which is bounded by depth() and ends in numbering",
 }
 
@@ -68,6 +55,7 @@ func CheckPanics(run *core.Run, prog *load.Program) {
 		nfuncs++
 		base := load.FuncName(fn)
 		f := cfgx.New(info, fd)
+		bd := newBounds(prog, info, fd)
 		var walk func(n ast.Node, fname string, loops []ast.Stmt, inSwitch bool)
 		walk = func(n ast.Node, fname string, loops []ast.Stmt, inSwitch bool) {
 			if n == nil {
@@ -146,6 +134,9 @@ func CheckPanics(run *core.Run, prog *load.Program) {
 						if _, isMap := info.TypeOf(ix.X).Underlying().(*types.Map); isMap {
 							s := add("map-store", types.ExprString(ix.X)+"[…] =", x)
 							s.ok, s.reason = mapNonNil(prog, info, fd, ix.X)
+							if !s.ok {
+								s.ok, s.reason = bd.mapOriginsMade(ix.X)
+							}
 						}
 					}
 				}
@@ -153,6 +144,9 @@ func CheckPanics(run *core.Run, prog *load.Program) {
 				if x.Type != nil {
 					s := add("type-assertion", types.ExprString(x), x)
 					s.ok, s.reason = assertionImplied(info, fd, x)
+					if !s.ok {
+						s.ok, s.reason = bd.assertionOK(f, x)
+					}
 				}
 			case *ast.IndexExpr:
 				t := info.TypeOf(x.X)
@@ -169,11 +163,45 @@ func CheckPanics(run *core.Run, prog *load.Program) {
 						}
 						s := add("index", types.ExprString(x), x)
 						s.ok, s.reason = indexDischarged(info, fd, f, x, loops)
+						if !s.ok {
+							if ok, why := bd.indexOK(f, x, loops); ok {
+								s.ok, s.reason = true, why
+							} else if ok, why := bd.lastElemOK(f, x); ok {
+								s.ok, s.reason = true, why
+							} else if c, isC := bd.constInt(x.Index); isC && c >= 0 {
+								target := types.ExprString(x.X)
+								if ok, n := bd.guardedAtCallers(func(ci *types.Info, cfd *ast.FuncDecl, subst func(string) string) func(ast.Expr) (bool, bool) {
+									t := subst(target)
+									if t == "" {
+										return func(ast.Expr) (bool, bool) { return true, true }
+									}
+									return lenOracleIn(ci, cfd, t, c)
+								}); ok {
+									s.ok, s.reason = true, fmt.Sprintf("every call of the enclosing function (%d) is unreachable when len(%s) <= %d", n, target, c)
+								}
+							}
+						}
 					}
 				}
 			case *ast.SliceExpr:
 				s := add("slice", types.ExprString(x), x)
 				s.ok, s.reason = sliceDischarged(info, fd, f, x)
+				if !s.ok {
+					if ok, why := bd.sliceMore(f, x); ok {
+						s.ok, s.reason = true, why
+					} else if need, isC := bd.constNeed(x); isC && need > 0 {
+						target := types.ExprString(x.X)
+						if ok, n := bd.guardedAtCallers(func(ci *types.Info, cfd *ast.FuncDecl, subst func(string) string) func(ast.Expr) (bool, bool) {
+							t := subst(target)
+							if t == "" {
+								return func(ast.Expr) (bool, bool) { return true, true }
+							}
+							return lenOracleIn(ci, cfd, t, need-1)
+						}); ok {
+							s.ok, s.reason = true, fmt.Sprintf("every call of the enclosing function (%d) is unreachable when len(%s) < %d", n, target, need)
+						}
+					}
+				}
 			case *ast.BinaryExpr:
 				if x.Op == token.QUO || x.Op == token.REM {
 					if b, ok := info.TypeOf(x).Underlying().(*types.Basic); ok && b.Info()&types.IsInteger != 0 {
@@ -195,6 +223,11 @@ func CheckPanics(run *core.Run, prog *load.Program) {
 							if b, ok := info.TypeOf(x.Args[0]).Underlying().(*types.Basic); ok && b.Info()&types.IsInteger != 0 {
 								s := add("go/types-accessor", types.ExprString(x), x)
 								s.ok, s.reason = accessorDischarged(info, fd, x, sel, bound, loops)
+								if !s.ok {
+									if ok, why := bd.accessorOK(x, sel, bound, loops); ok {
+										s.ok, s.reason = true, why
+									}
+								}
 							}
 						}
 					}
@@ -871,7 +904,7 @@ func recursionSites(prog *load.Program) []*panicSite {
 			// structural: some argument is an accessor chain (only structural accessors) rooted at a variable
 			// bound by the enclosing type switch
 			for _, a := range e.call.Args {
-				if structuralArg(e.info, e.fd, a) {
+				if structuralFrom(prog, e.info, e.fd, a, true, 0) {
 					s.ok, s.reason = true, "the argument "+types.ExprString(a)+" is a strict component of the value being switched on"
 				}
 			}
@@ -890,6 +923,17 @@ func recursionSites(prog *load.Program) []*panicSite {
 }
 
 func structuralArg(info *types.Info, fd *ast.FuncDecl, a ast.Expr) bool {
+	return structuralFrom(nil, info, fd, a, true, 0)
+}
+
+// structuralFrom: the expression is a component of the value a type switch is looking at: a chain of
+// structural accessors rooted at the switch symbol, at a local derived from one, or at a parameter of
+// an enclosing function literal / unexported moq function all of whose calls pass such a component.
+// needAccessor: at least one accessor must be applied somewhere along the way (a strict component).
+func structuralFrom(prog *load.Program, info *types.Info, fd *ast.FuncDecl, a ast.Expr, needAccessor bool, depth int) bool {
+	if depth > 4 {
+		return false
+	}
 	e := ast.Unparen(a)
 	n := 0
 	for {
@@ -906,28 +950,125 @@ func structuralArg(info *types.Info, fd *ast.FuncDecl, a ast.Expr) bool {
 			e = ast.Unparen(sel.X)
 			continue
 		case *ast.Ident:
-			if n == 0 {
-				// a bare variable: allowed only if it was bound to a structural accessor (targs := t.TypeArgs())
+			need := needAccessor && n == 0
+			v := info.ObjectOf(x)
+			if v == nil {
 				return false
 			}
-			v := info.ObjectOf(x)
-			// the root must be the symbol of a type switch clause or a local derived from one
+			// the symbol of a type switch clause
 			if isSwitchSymbol(info, fd, v) {
-				return true
+				return !need
 			}
-			// local derived from a structural accessor of a switch symbol
+			// local derived from a structural accessor of a switch symbol (targs := t.TypeArgs())
 			derived := false
 			ast.Inspect(fd, func(nn ast.Node) bool {
 				if as, ok := nn.(*ast.AssignStmt); ok && len(as.Lhs) == len(as.Rhs) {
 					for i, l := range as.Lhs {
-						if lid, ok := ast.Unparen(l).(*ast.Ident); ok && info.ObjectOf(lid) == v && structuralArg(info, fd, as.Rhs[i]) {
+						if lid, ok := ast.Unparen(l).(*ast.Ident); ok && info.ObjectOf(lid) == v && structuralFrom(prog, info, fd, as.Rhs[i], need, depth+1) {
+							derived = true
+						}
+					}
+				}
+				// x, ok := y.(T): an alias of y
+				if as, ok := nn.(*ast.AssignStmt); ok && len(as.Lhs) == 2 && len(as.Rhs) == 1 {
+					if lid, ok := ast.Unparen(as.Lhs[0]).(*ast.Ident); ok && info.ObjectOf(lid) == v {
+						if ta, ok := ast.Unparen(as.Rhs[0]).(*ast.TypeAssertExpr); ok && structuralFrom(prog, info, fd, ta.X, need, depth+1) {
 							derived = true
 						}
 					}
 				}
 				return true
 			})
-			return derived
+			if derived {
+				return true
+			}
+			// parameter of an enclosing function literal bound to a local: every call of that local
+			var lit *ast.FuncLit
+			pi := -1
+			ast.Inspect(fd, func(nn ast.Node) bool {
+				fl, ok := nn.(*ast.FuncLit)
+				if !ok || !within(fl, x) {
+					return true
+				}
+				k := 0
+				for _, f := range fl.Type.Params.List {
+					for _, nm := range f.Names {
+						if info.Defs[nm] == v {
+							lit, pi = fl, k
+						}
+						k++
+					}
+				}
+				return true
+			})
+			if lit != nil {
+				var holder types.Object
+				ast.Inspect(fd, func(nn ast.Node) bool {
+					if as, ok := nn.(*ast.AssignStmt); ok && len(as.Lhs) == len(as.Rhs) {
+						for i, r := range as.Rhs {
+							if ast.Unparen(r) == ast.Expr(lit) {
+								if lid, ok := ast.Unparen(as.Lhs[i]).(*ast.Ident); ok {
+									holder = info.ObjectOf(lid)
+								}
+							}
+						}
+					}
+					return true
+				})
+				if holder == nil {
+					return false
+				}
+				calls, good := 0, 0
+				ast.Inspect(fd, func(nn ast.Node) bool {
+					call, ok := nn.(*ast.CallExpr)
+					if !ok {
+						return true
+					}
+					if cid, ok := ast.Unparen(call.Fun).(*ast.Ident); ok && info.ObjectOf(cid) == holder && pi < len(call.Args) {
+						calls++
+						if structuralFrom(prog, info, fd, call.Args[pi], need, depth+1) {
+							good++
+						}
+					}
+					return true
+				})
+				return calls > 0 && calls == good
+			}
+			// parameter of the enclosing unexported moq function: every call site in moq
+			if prog == nil || fd.Type.Params == nil {
+				return false
+			}
+			pi = -1
+			k := 0
+			for _, f := range fd.Type.Params.List {
+				for _, nm := range f.Names {
+					if info.Defs[nm] == v {
+						pi = k
+					}
+					k++
+				}
+			}
+			self, _ := info.Defs[fd.Name].(*types.Func)
+			if pi < 0 || self == nil || self.Exported() {
+				return false
+			}
+			calls, good := 0, 0
+			funcsOf(prog, func(pkgPath string, cinfo *types.Info, cfd *ast.FuncDecl, caller *types.Func) {
+				ast.Inspect(cfd.Body, func(nn ast.Node) bool {
+					call, ok := nn.(*ast.CallExpr)
+					if !ok {
+						return true
+					}
+					if cf, ok := typeutil.Callee(cinfo, call).(*types.Func); ok && cf.Origin() == self && pi < len(call.Args) {
+						calls++
+						if structuralFrom(prog, cinfo, cfd, call.Args[pi], need, depth+1) {
+							good++
+						}
+					}
+					return true
+				})
+			})
+			return calls > 0 && calls == good
 		default:
 			return false
 		}
